@@ -181,6 +181,11 @@ def arr_index(ex, st, a, sl_, node):
             ln = z3.If(hi >= 0, z3.If(hi <= n, hi, n), z3.If(n + hi >= 0, n + hi, 0))
             out = RVec(z3.simplify(ln), a.t, a.flags)
             return out
+    if is_rvec(a) and len(elts) == 2 and isinstance(elts[0], ast.Slice) and elts[0].lower is None and elts[0].upper is None \
+            and elts[0].step is None and (isinstance(elts[1], ast.Constant) and elts[1].value is None
+                                          or ast.unparse(elts[1]) == 'np.newaxis'):
+        used('v[:, np.newaxis] -> column of shape (n, 1)')
+        return VArr((a.shape[0], 1), None, None, a.dtype)
     if is_rvec(a) and len(elts) == 1 and not isinstance(elts[0], ast.Slice):
         iv = st.deref(ex.ev(elts[0], st))
         if isinstance(iv, VArr) and iv.ndim == 1 and iv.tag == 'ivec' and getattr(iv, 'sortperm', None) is a:
@@ -324,3 +329,29 @@ def store(ex, st, base, sl_, v, node, base_node):
 M.store = store
 
 _orig_len = M.FUNCS['len']
+
+
+@model('np.zeros_like')
+def m_zeros_like(ex, st, args, kwargs, node):
+    v = st.deref(args[0])
+    if isinstance(v, VArr):
+        used('np.zeros_like(x) -> zeros of the same shape')
+        return VArr(v.shape, None, None, v.dtype)
+    raise Unsupported('np.zeros_like of a non-array')
+
+
+@model('np.divide')
+def m_divide(ex, st, args, kwargs, node):
+    a, b = args[0], st.deref(args[1])
+    if is_rvec(b) and 'where' in kwargs and 'out' in kwargs:
+        mask = st.deref(kwargs['where'])
+        out0 = st.deref(kwargs['out'])
+        n = Z(b.shape[0])
+        if isinstance(mask, VArr) and mask.tag == 'bvec' and isinstance(out0, VArr) and out0.ndim == 1:
+            used('np.divide(c, v, out=o, where=mask) -> c / v[i] where mask[i], o[i] elsewhere; requires v[i] != 0 where mask[i]')
+            ex.need_num(st, a, node)
+            ex.oblige(st, 'safety', 'guarded-elementwise-division-by-nonzero',
+                      z3.ForAll([_i], z3.Implies(z3.And(0 <= _i, _i < n, mask.t[_i]), b.t[_i] != 0)), node)
+            ex.oblige(st, 'call-pre', 'divide-out-shape', Z(out0.shape[0]) == n, node)
+            return fresh_rvec(ex, st, b.shape[0], 'winv')
+    raise Unsupported('np.divide pattern')
